@@ -44,7 +44,7 @@ def build(y0s, y1s, place):
 
 
 def ops(w):
-    y0, y1 = w.syms
+    y0, y1 = w.syms[:2]
     m0, m1 = w.mods[:2]
     out = []
 
@@ -205,7 +205,7 @@ def shards(tier):
             out.append({"fn": "step", "consts": {"full_y1": 0, "nz": 1, "first_ops": fo, "op_lo": 0, "nops": len(fo), "nops2": N_OPS, "b0size": 1},
                         "timeout": 900, "twin": False, "cover": False})
     else:
-        for y1m in range(3):
+        for y1m in (1, 2):
             for lo in range(0, N_OPS, chunk):
                 out.append({"fn": "step", "consts": {"full_y1": 1, "y1m": y1m, "nz": 3 * NPAY, "op_lo": lo, "nops": min(chunk, N_OPS - lo), "nops2": 1, "b0size": (lo // chunk + y1m) % 2},
                             "timeout": 1800, "twin": "first", "cover": "first"})
